@@ -119,8 +119,9 @@ var f4Inputs = []string{`null`, `1`, `"a"`, `[1,[2]]`, `{"a":1,"b":[0]}`, `{"a":
 
 type event map[string]any
 
-func runFacts(cases []gcase, sampleEvery int) []event {
+func runFacts(cases []gcase, sampleEvery int) [][]byte {
 	evs := make([]event, len(cases))
+	outs := make([][]byte, len(cases))
 	const B = 60
 	var wg sync.WaitGroup
 	sem := make(chan struct{}, max(2, runtime.NumCPU()/2))
@@ -155,7 +156,8 @@ func runFacts(cases []gcase, sampleEvery int) []event {
 				// the real command line refused or failed the (valid) fact-gathering program: an observation about fq, not about the
 				// harness -- every program of the batch is reported with an unusable tree, which TLC rejects
 				for k := lo; k < hi; k++ {
-					evs[k] = event{"id": cases[k].ID, "a": map[string]any{"__err": fmt.Sprintf("command line failed on the fact-gathering program: exit=%d timeout=%v stderr=%.300s", r.Exit, r.TimedOut, r.Stderr)}}
+					b, _ := json.Marshal(event{"id": cases[k].ID, "a": map[string]any{"__err": fmt.Sprintf("command line failed on the fact-gathering program: exit=%d timeout=%v stderr=%.300s", r.Exit, r.TimedOut, r.Stderr)}})
+					outs[k] = b
 				}
 				return
 			}
@@ -198,10 +200,19 @@ func runFacts(cases []gcase, sampleEvery int) []event {
 			if os.Getenv("VERIF_TIMING") != "" {
 				fmt.Fprintf(os.Stderr, "fact4 batch %d: %v\n", lo, time.Since(t1))
 			}
+			// serialise and release the batch (a thorough run holds tens of thousands of trees)
+			for k := lo; k < hi; k++ {
+				b, err := json.Marshal(evs[k])
+				if err != nil {
+					kit.Fatalf("marshal event: %v", err)
+				}
+				outs[k] = b
+				evs[k] = nil
+			}
 		}(lo, hi)
 	}
 	wg.Wait()
-	return evs
+	return outs
 }
 
 // the text the real command line / REPL evaluates for `prog`, per mode (last text handed to _eval that is not the REPL prelude)
@@ -571,7 +582,7 @@ func main() {
 		evs := runFacts(cases, every)
 		out := kit.NewOut(os.Args[3])
 		for _, e := range evs {
-			out.Emit(e)
+			out.Emit(json.RawMessage(e))
 		}
 		out.Close()
 	case "gen":
